@@ -96,13 +96,24 @@ def make_externs(argvals):
             raise ir.Unsupported("strtol/strtoll with an end pointer or a base other than 10")
         return IntV(64, arg_of(vals[0]))
 
+    def strtod(ex, path, vals):
+        # C11 7.22.1.3 with IEC 60559: the correctly rounded double nearest to the decimal value
+        if len(vals) > 1 and vals[1].obj is not None:
+            raise ir.Unsupported("strtod with an end pointer")
+        return ir.FpV(64, ir.round_to_fp(arg_of(vals[0]), 64))
+
+    def strtof(ex, path, vals):
+        if len(vals) > 1 and vals[1].obj is not None:
+            raise ir.Unsupported("strtof with an end pointer")
+        return ir.FpV(32, ir.round_to_fp(arg_of(vals[0]), 32))
+
     def asm_main(ex, path, vals):
         res = z3.Int(f"asm_main_result_{len(path.events)}")
         path.pc.append(z3.And(res >= -(1 << 31), res < (1 << 31)))
         path.events.append(('asm_main', vals))
         return IntV(32, res)
     return {'write': ext_write, 'calloc': ext_calloc, 'free': ext_free, 'atoi': atoi, 'atol': atol, 'atoll': atol,
-            'strtol': strtoll, 'strtoll': strtoll, 'asm_main': asm_main}
+            'strtol': strtoll, 'strtoll': strtoll, 'strtod': strtod, 'atof': strtod, 'strtof': strtof, 'asm_main': asm_main}
 
 
 # ------------------------------------------------------------------ print specification
